@@ -195,6 +195,46 @@ fn denotes(t: &T, v: &V) -> Option<bool> {
     }
 }
 
+/// The union simplification the implementation applies (typing/ty.rs, Ty::unions "merge adjacent elements"):
+/// `list[A] | list[B]` becomes `list[A | B]`, `dict[K1, V1] | dict[K2, V2]` becomes `dict[K1 | K2, V1 | V2]`, at every
+/// level. Used only to recognise the open finding `union-of-containers-merged`: an answer that disagrees with the
+/// documented denotation but agrees with the denotation of the merged type.
+fn merged(t: &T) -> T {
+    match t {
+        T::List(Some(e)) => T::List(Some(Box::new(merged(e)))),
+        T::Set(Some(e)) => T::Set(Some(Box::new(merged(e)))),
+        T::TupleVar(e) => T::TupleVar(Box::new(merged(e))),
+        T::Dict(Some((k, v))) => T::Dict(Some((Box::new(merged(k)), Box::new(merged(v))))),
+        T::TupleOf(ts) => T::TupleOf(ts.iter().map(merged).collect()),
+        T::Union(ts) => {
+            // flatten, then merge the list members and the dict members
+            let mut flat: Vec<T> = Vec::new();
+            for m in ts.iter().map(merged) {
+                match m {
+                    T::Union(inner) => flat.extend(inner),
+                    o => flat.push(o),
+                }
+            }
+            let lists: Vec<T> = flat.iter().filter_map(|m| if let T::List(Some(e)) = m { Some((**e).clone()) } else { None }).collect();
+            let dicts: Vec<(T, T)> = flat.iter().filter_map(|m| if let T::Dict(Some((k, v))) = m { Some(((**k).clone(), (**v).clone())) } else { None }).collect();
+            let mut out: Vec<T> = flat.into_iter().filter(|m| !matches!(m, T::List(Some(_)) | T::Dict(Some(_)))).collect();
+            if !lists.is_empty() {
+                out.push(T::List(Some(Box::new(if lists.len() == 1 { lists[0].clone() } else { merged(&T::Union(lists)) }))));
+            }
+            if !dicts.is_empty() {
+                let (ks, vs): (Vec<T>, Vec<T>) = dicts.into_iter().unzip();
+                let k = if ks.len() == 1 { ks[0].clone() } else { merged(&T::Union(ks)) };
+                let v = if vs.len() == 1 { vs[0].clone() } else { merged(&T::Union(vs)) };
+                out.push(T::Dict(Some((Box::new(k), Box::new(v)))));
+            }
+            if out.len() == 1 { out.pop().unwrap() } else { T::Union(out) }
+        }
+        o => o.clone(),
+    }
+}
+
+const SIG_UNION_MERGED: &str = "union-of-containers-merged";
+
 fn values() -> Vec<(&'static str, V)> {
     use V::*;
     vec![
@@ -289,8 +329,35 @@ fn types_depth2() -> Vec<T> {
         d1.push(T::TupleOf(vec![x.clone(), y.clone(), z.clone()]));
         d1.push(T::Union(vec![x.clone(), y.clone(), z.clone()]));
     }
+    // unions whose members are parametrised containers: every ordered pair of atoms under the same constructor, and a
+    // deterministic sample of mixed constructors and of dict pairs
+    let mut container_unions: Vec<T> = Vec::new();
+    for (i, x) in a.iter().enumerate() {
+        for (j, y) in a.iter().enumerate() {
+            if x == y {
+                continue;
+            }
+            let (bx, by) = (Box::new(x.clone()), Box::new(y.clone()));
+            container_unions.push(T::Union(vec![T::List(Some(bx.clone())), T::List(Some(by.clone()))]));
+            container_unions.push(T::Union(vec![T::Set(Some(bx.clone())), T::Set(Some(by.clone()))]));
+            container_unions.push(T::Union(vec![T::TupleVar(bx.clone()), T::TupleVar(by.clone())]));
+            // (a union of two tuple-of-types literals cannot be written: the literal has no `|`; one literal may be the
+            // right operand of a union that starts with a proper type)
+            container_unions.push(T::Union(vec![T::TupleVar(bx.clone()), T::TupleOf(vec![y.clone()])]));
+            let z = &a[(i * 3 + j * 5 + 1) % a.len()];
+            let w = &a[(i * 7 + j + 2) % a.len()];
+            container_unions.push(T::Union(vec![T::Dict(Some((bx.clone(), Box::new(z.clone())))), T::Dict(Some((by.clone(), Box::new(w.clone()))))]));
+            match (i + j) % 4 {
+                0 => container_unions.push(T::Union(vec![T::List(Some(bx)), T::Set(Some(by))])),
+                1 => container_unions.push(T::Union(vec![T::List(Some(bx)), T::TupleVar(by)])),
+                2 => container_unions.push(T::Union(vec![T::List(Some(bx)), T::List(Some(by)), z.clone()])),
+                _ => container_unions.push(T::Union(vec![T::Dict(Some((bx, by.clone()))), T::List(Some(by))])),
+            }
+        }
+    }
     let mut all = a.clone();
     all.extend(d1.clone());
+    all.extend(container_unions);
     // depth 2: a constructor applied to a depth-1 type (deterministic subsample of d1)
     for (i, x) in d1.iter().enumerate() {
         if i % 5 != 0 {
@@ -444,7 +511,12 @@ fn run_batch(ctx: &Ctx, types: &[T], r: &mut CaseResult) {
                 r.fail("type-path-disagreement", format!("type {} value {vs}: {} says {first} but {n} says {b}", t.src(), answers[0].0));
             } else if let Some(w) = want {
                 if w != first {
-                    r.fail("type-denotation", format!("type {} value {vs}: every check path answers {first}, the documented meaning is {w}", t.src()));
+                    let m = merged(t);
+                    if m != *t && denotes(&m, vm) == Some(first) {
+                        r.fail(SIG_UNION_MERGED, format!("type {} value {vs}: every check path answers {first}, the documented meaning is {w}; the answer is the one for {} (list/dict members of a union merged)", t.src(), m.src()));
+                    } else {
+                        r.fail("type-denotation", format!("type {} value {vs}: every check path answers {first}, the documented meaning is {w}", t.src()));
+                    }
                 }
             }
             if (t.depth() >= 1 || matches!(t, T::Union(_))) && matches!(vm, V::List(_) | V::Dict(_) | V::Set(_) | V::Tuple(_) | V::Rec(_) | V::EnumV(_)) {
